@@ -1805,6 +1805,12 @@ class ContentDir(Dir):
     type_name = "redun.ContentDir"
     classes = ContentFileClasses()
 
+    def _calc_hash(self, files: Optional[list[File]] = None) -> str:
+        # Hash the files of the directory by content (ContentFile), not by size and mtime.
+        if files is None:
+            files = list(self)
+        return hash_struct([self.type_basename, self.path] + sorted(file.hash for file in files))
+
 
 class ContentStagingFile(StagingFile):
     type_basename = "ContentStagingFile"
